@@ -16,10 +16,10 @@ import (
 const c09Base = int64(1000) // seconds; keeps every window in positive time
 
 type c09Input struct {
-	A          []int  `json:"a"`              // sample seconds of series a (relative to base)
-	Dup        bool   `json:"dup,omitempty"`  // first timestamp carries two samples
-	B          bool   `json:"b,omitempty"`    // second series with samples at 2 and 5
-	Fn         string `json:"fn"`             // query variant
+	A          []int  `json:"a"`             // sample seconds of series a (relative to base)
+	Dup        bool   `json:"dup,omitempty"` // first timestamp carries two samples
+	B          bool   `json:"b,omitempty"`   // second series with samples at 2 and 5
+	Fn         string `json:"fn"`            // query variant
 	RangeS     int    `json:"range_s"`
 	OffsetS    int    `json:"offset_s"`
 	StartS     int    `json:"start_s"`
